@@ -463,6 +463,8 @@ pub fn resolve<'a>(sf: &'a SourceFile, path: &str) -> std::result::Result<Cur<'a
                             Stmt::Local(l) => match &l.pat {
                                 Pat::Ident(pi) => pi.ident == self.name,
                                 Pat::Type(pt) => matches!(&*pt.pat, Pat::Ident(pi) if pi.ident == self.name),
+                                // `let Some(NAME) = .. else { .. };`
+                                Pat::TupleStruct(ts) => ts.elems.len() == 1 && matches!(&ts.elems[0], Pat::Ident(pi) if pi.ident == self.name),
                                 _ => false,
                             },
                             _ => false,
